@@ -64,7 +64,7 @@ def plan(tier: str, seed: int) -> list[dict]:
 
 def build_dir(rng, root: Path):
     """A small indexed directory with ZID / ID / RID owners spread over pages."""
-    pages = {"a.zo": [], "sub/b.zo": [], "c_d.zo": []}
+    pages = {"a.zo": [], "sub/b.zo": [], "c_d.zo": [], "sub/a.zo": [], "d2/b.zo": []}  # (same base names in different directories)
     owners = {"zid": [], "ID": [], "RID": [], "URL": []}
     n = 0
     for rel in pages:
@@ -230,7 +230,9 @@ def run_dir(acc: Acc, seed: int, idx: int, nlines: int, only=None) -> None:
         zid_page = {n["zid"]: n["page"] for n in dump.notes}
         for z, rel in owners["zid"]:
             if zid_page.get(z) != rel:
-                acc.inconclusive.append(f"owner table and index disagree for {z}")
+                # the files are written by this check, one note per line: `rel` IS the page that holds the note
+                acc.judged += 1
+                acc.violation(f"the index attributes note {z} to page {zid_page.get(z)!r}, the file that contains it is {rel!r}: its ZID / ID / RID targets cannot resolve to the owning page", {"seed": seed, "idx": idx, "zid": z}, cls="indexed owner page of a note differs from the file that contains it")
                 return
         snapshot = {str(f.relative_to(root)): f.read_bytes() for f in sorted(root.rglob("*.zo"))}
 
